@@ -100,6 +100,14 @@
 (assert (forall ((m BSeq) (k BSeq)) (! (and (= (qval (qdec (qenc m)) k) (qval m k)) (= (qhas (qdec (qenc m)) k) (qhas m k))) :pattern ((qval (qdec (qenc m)) k)) :pattern ((qhas (qdec (qenc m)) k)))))
 (define-fun qget ((s BSeq) (k BSeq)) BSeq (qval (qdec s) k))
 (declare-fun pesc (BSeq) BSeq)
+; (*url.URL).String() of a URL that has only Scheme, Host, Path and RawQuery set, and what url.Parse reads back from it
+; (library round trip, assumed: Parse(u.String()) returns the same scheme, host, decoded path and raw query)
+(declare-fun urlstring4 (BSeq BSeq BSeq BSeq) BSeq)
+(declare-fun uscheme (BSeq) BSeq)
+(declare-fun uhost (BSeq) BSeq)
+(declare-fun upath (BSeq) BSeq)
+(declare-fun uquery (BSeq) BSeq)
+(assert (forall ((s BSeq) (h BSeq) (p BSeq) (q BSeq)) (! (and (= (uscheme (urlstring4 s h p q)) s) (= (uhost (urlstring4 s h p q)) h) (= (upath (urlstring4 s h p q)) p) (= (uquery (urlstring4 s h p q)) q)) :pattern ((urlstring4 s h p q)))))
 
 ; ---- syscall/js vocabulary (uninterpreted readings of a JavaScript value) ----
 (declare-fun jstype (Int) Int)
